@@ -36,6 +36,19 @@ Verdict(c) ==
   ELSE IF c.k = "shape" THEN
      (IF c.out # "ok" THEN "Raised"
       ELSE IF c.shape # FacShape(c.doms) THEN "ShapeIsDomainSizes" ELSE "ok")
+  ELSE IF c.k = "bind" THEN
+     \* add_factor on a fresh interpretation with A, B bound: accepted exactly when BindAllowed; then shape() reports the sizes
+     LET bound == [nl \in {"A", "B"} |-> IF nl = "A" THEN c.a ELSE c.b] IN
+     (IF c.out \notin {"ok", "raise:ValueError"} THEN "Raised"
+      ELSE IF (c.out = "ok") # BindAllowed(c.type, bound, c.fdoms) THEN "BindOnlyMatchingArityAndDomains"
+      ELSE IF c.out = "ok" /\ c.shape # BindShape(c.type, bound) THEN "ShapeIsDomainSizes"
+      ELSE IF c.out = "ok" /\ ~c.second_rejected THEN "BindOnlyUnboundLabel"
+      ELSE IF c.out # "ok" /\ c.bound_after THEN "FailureAtomic"
+      ELSE "ok")
+  ELSE IF c.k = "dom_hist" THEN
+     \* the domain was built from a list that the caller changed afterwards: the domain is either the one it was built
+     \* as (the code copies the list) or, consistently, the one the list now spells -- never a mixture
+     (IF DomClause(c) = "ok" \/ DomClause([c EXCEPT !.d = c.d2]) = "ok" THEN "ok" ELSE DomClause(c))
   ELSE "UnknownCase"
 
 Judge == LET c == Cases[tid] IN PrintT(ToJson([gtid |-> c.gtid, v |-> Verdict(c), tags |-> c.tag]))
